@@ -17,4 +17,9 @@ var Props = []*h.Prop{
 		Real:        realQuery,
 		Stub:        stubQuery,
 		Assumptions: []string{"interleavings are controlled at file-system operations (every open/read/seek/stat/close/readdir); code between two operations runs under the Go scheduler", "termination = the query returns within one simulated hour of idling once no goroutine can proceed"}},
+	{ID: "C30", Run: c30, Bubble: true,
+		Rule:        "one evaluation = one run of a writer process (1-4 write-outs, some crossing a day/month/year boundary, each commit renaming the day directory) and a reader process (1-3 queries with time labels or listings, 1-2 workers) over one database, with a seeded schedule (uniform / burst / priority / run-to-completion with preemption) deciding at every file-system operation of either process who proceeds; the recorded history (start/end step of every write-out and query) is checked: no error, no corrupted blocks, per day a prefix of the committed blocks within [completed before start, started before end], every visible block exact; non-trivial = a query overlapped a write-out; distinct = distinct event-log hash including scheduling decisions",
+		Real:        realQuery,
+		Stub:        stubQuery,
+		Assumptions: []string{"the property's model-checked clause is a different technique and is not claimed; this is exploration of the real reader and writer", "interleavings are controlled at file-system operations"}},
 }
